@@ -9,7 +9,16 @@
     two programs that differ only in where parentheses stand end alike whenever both end
     ([C05_parentheses_are_free]); and adding parentheses never makes an evaluation that ends
     run out: fuel [n * (d + 1) + d] suffices, [d] the deepest nest of parentheses
-    ([C05_parenthesised_program_evaluates]). Both semantics (the code's and the lexical one).
+    ([C05_parenthesised_program_evaluates]). Inlining and naming are free in evaluation: replacing
+    every use of a plain declaration (no parameters, no annotations of its own, not an
+    @reference, not flagged recursive, not mentioning itself) by its right-hand side leaves every
+    result unchanged ([C05_inline_keeps_result]); read backwards, naming a sub-expression with
+    such a let keeps the result and needs at most twice the fuel plus one
+    ([C05_naming_keeps_result]); both programs end alike whenever both end
+    ([C05_inlining_is_free]). The copies made by the inlining function keep the identifiers of
+    the recursion nodes of the declaration; the real front end numbers the copies afresh,
+    which changes only generated names of implicit components (monitor O05 compares up to
+    those). Both semantics (the code's and the lexical one).
     Proved here (partial), for every syntax tree and environment: parenthesising a
     sub-expression and renaming identifiers by any injective renaming leave the binding
     relation computed by name resolution unchanged (hence acceptance by the resolver and the
@@ -19,7 +28,7 @@
     rewrite engine of the check (monitor O05) on generated programs; two annotation-related
     exceptions are recorded as known findings (K13, K15). *)
 From Oal Require Import Resolve ResolveProofs RewriteProofs.
-From Oal Require Eval EvalProofs FuelProofs ParenProofs.
+From Oal Require Eval EvalProofs FuelProofs ParenProofs InlineProofs.
 
 Theorem C05_paren_resolution_partial : forall en t, lex en (RNode [t]) = lex en t.
 Proof. exact paren_resolution. Qed.
@@ -87,3 +96,35 @@ Example C05_parentheses_nonvacuous :
   exists r, Eval.eval_program false ParenProofs.ex_paren_P 50 ParenProofs.ex_paren_rs = Eval.Ok r /\
             Eval.eval_program false (ParenProofs.strip_prog ParenProofs.ex_paren_P) 50 (map ParenProofs.strip ParenProofs.ex_paren_rs) = Eval.Ok r.
 Proof. exact ParenProofs.ex_parentheses. Qed.
+
+(** inlining a plain declaration at all its uses; naming with let is the same read backwards *)
+Theorem C05_inline_keeps_result : forall lx P m0 k0 d0,
+  Eval.get_decl P m0 k0 = Some d0 -> InlineProofs.plain d0 -> InlineProofs.occ m0 k0 (Eval.d_rhs d0) = false ->
+  forall n rs r, Eval.eval_program lx P n rs = r -> r <> Eval.Fuel ->
+  Eval.eval_program lx (InlineProofs.inline_prog P m0 k0 d0) n (map (InlineProofs.inline_expr m0 k0 d0) rs) = r.
+Proof. exact InlineProofs.inline_keeps_result. Qed.
+Print Assumptions C05_inline_keeps_result.
+
+Theorem C05_naming_keeps_result : forall lx P m0 k0 d0,
+  Eval.get_decl P m0 k0 = Some d0 -> InlineProofs.plain d0 -> InlineProofs.occ m0 k0 (Eval.d_rhs d0) = false ->
+  forall n rs r, Eval.eval_program lx (InlineProofs.inline_prog P m0 k0 d0) n (map (InlineProofs.inline_expr m0 k0 d0) rs) = r ->
+  r <> Eval.Fuel -> Eval.eval_program lx P (n * 2 + 1) rs = r.
+Proof. exact InlineProofs.naming_keeps_result. Qed.
+Print Assumptions C05_naming_keeps_result.
+
+Theorem C05_inlining_is_free : forall lx P m0 k0 d0,
+  Eval.get_decl P m0 k0 = Some d0 -> InlineProofs.plain d0 -> InlineProofs.occ m0 k0 (Eval.d_rhs d0) = false ->
+  forall n1 n2 rs,
+  Eval.eval_program lx P n1 rs <> Eval.Fuel ->
+  Eval.eval_program lx (InlineProofs.inline_prog P m0 k0 d0) n2 (map (InlineProofs.inline_expr m0 k0 d0) rs) <> Eval.Fuel ->
+  Eval.eval_program lx P n1 rs = Eval.eval_program lx (InlineProofs.inline_prog P m0 k0 d0) n2 (map (InlineProofs.inline_expr m0 k0 d0) rs).
+Proof. exact InlineProofs.inlining_is_free. Qed.
+Print Assumptions C05_inlining_is_free.
+
+Example C05_inlining_nonvacuous :
+  let d := Eval.mk_decl None false [] [] (Eval.EObj [Eval.EProp 20%N None (Eval.ETerm [] (Eval.EPrim 2%N))]) in
+  InlineProofs.plain d /\ InlineProofs.inline_prog InlineProofs.ex_inl_P 0%N 0%N d <> InlineProofs.ex_inl_P /\
+  exists r, Eval.eval_program false InlineProofs.ex_inl_P 50 InlineProofs.ex_inl_rs = Eval.Ok r /\
+            Eval.eval_program false (InlineProofs.inline_prog InlineProofs.ex_inl_P 0%N 0%N d) 50
+                              (map (InlineProofs.inline_expr 0%N 0%N d) InlineProofs.ex_inl_rs) = Eval.Ok r.
+Proof. exact InlineProofs.ex_inlining. Qed.
